@@ -99,7 +99,9 @@ func checkC06(c *Ctx) {
 	p := c.P
 
 	// ---- D1: SIZE= at MAIL
-	isParsed := func(v ssa.Value) bool { return fromCall(v, "strconv.ParseInt", 0) || fromCall(v, "strconv.Atoi", 0) || fromCall(v, "strconv.ParseUint", 0) }
+	isParsed := func(v ssa.Value) bool {
+		return fromCall(v, "strconv.ParseInt", 0) || fromCall(v, "strconv.Atoi", 0) || fromCall(v, "strconv.ParseUint", 0)
+	}
 	nMail := 0
 	for _, fn := range m.fns {
 		gates, _ := findSizeGates(fn, m.fMaxBytes, isParsed)
